@@ -411,6 +411,27 @@ def inj_project_into_output(rnd):
     host.loop_order = {"O": legal}
     bad = s.clone()
     bad.loop_order = {"O": bad_lo}
+    if rnd.random() < 0.4:
+        # the output rank is shape-partitioned and the input rank follows it: the loop
+        # order names the input's LEVELS (W1, W0) where the output's belong
+        q, f, w = dims[bad_dim]
+        nlev = rnd.choice([1, 1, 2])
+        part = {q: ["uniform_shape(%d)" % z for z in sorted(rnd.sample([2, 3, 4, 6, 8, 12], nlev),
+                                                              reverse=True)],
+                w: ["follow(%s)" % q]}
+        def lv(r):
+            return [r + str(i) for i in range(nlev, -1, -1)]
+        # a legal order for the partitioned host: output levels + the filter rank
+        host_lo = [x for x in legal if x not in (q, w, f)]
+        host_lo = lv(q)[:1] + [f] + lv(q)[1:] + host_lo if rnd.random() < 0.5 else lv(q) + [f] + host_lo
+        bad_p = [x.replace(q, w, 1) if x in lv(q) else x for x in host_lo]
+        host = s.clone()
+        host.loop_order = {"O": host_lo}
+        host.partitioning = {"O": part}
+        bad = s.clone()
+        bad.loop_order = {"O": bad_p}
+        bad.partitioning = {"O": dict(part)}
+        return "loop-order-projects-into-output", "partitioned-follower/%d" % nlev, host, bad, "plain"
     return "loop-order-projects-into-output", "dim%d/%d" % (bad_dim, len(dims)), host, bad, "plain"
 
 
